@@ -330,3 +330,21 @@ pub fn cmd_refid(a: &[&str]) -> String {
         },
     }
 }
+
+/// phcfile <hex bytes>: write the bytes to a real file and run the real get_phc_error_bound_from_path on it
+pub fn cmd_phcfile(a: &[&str]) -> String {
+    let hex = a.get(0).copied().unwrap_or("");
+    let bytes: Vec<u8> = (0..hex.len() / 2).filter_map(|i| u8::from_str_radix(&hex[2 * i..2 * i + 2], 16).ok()).collect();
+    let path = crate::seg::tmp_path("phc");
+    if std::fs::write(&path, &bytes).is_err() {
+        return "io".into();
+    }
+    let p2 = path.clone();
+    let r = std::panic::catch_unwind(move || vp::phc_error_bound_from_path(std::path::Path::new(&p2)));
+    let _ = std::fs::remove_file(&path);
+    match r {
+        Ok(Ok(v)) => format!("ok value={}", v),
+        Ok(Err(e)) => format!("err {}", format!("{:?}", e.kind()).replace(' ', "_")),
+        Err(p) => format!("panic {}", crate::panic_msg(&p).replace(' ', "_")),
+    }
+}
